@@ -127,7 +127,7 @@ class CoapAccessory:
             sc = self.script.get((opcode, iid), {})
             status = sc.get("status", status)
             if status != 0 or sc.get("empty"):
-                rbody = b""
+                rbody = sc.get("body", b"") if status != 0 else b""  # (an error response may carry a body too: the length field says how long it is)
             out += struct.pack("<BBBH", sc.get("control", 0x02), (tid + sc.get("tid_delta", 0)) & 0xFF, status, len(rbody)) + rbody
         ct = C.seal(self.session["a2c"], nonce(self.session["a2c_ctr"]), out)
         self.session["a2c_ctr"] += 1
